@@ -1,13 +1,329 @@
 import SigmaVerif.Spec.Mods
+import SigmaVerif.Spec.SStr
+import SigmaVerif.Lemmas.Mods
+/-!
+# C03 — laws of the value modifiers (for all values)
+
+1. `contains` / `startswith` / `endswith` add only the missing wildcards, and the padded pattern
+   means "occurs somewhere / at the start / at the end".
+2. `windash` yields every dash variant of every parameter-position dash, nothing else, each once.
+3. `expand` turns exactly the unescaped `%name%` into placeholders.
+4. structural laws of the chain (`all`, `neq`, unknown modifiers, content-preserving retyping).
+-/
 namespace SigmaVerif.Props.C03
-open SigmaVerif.Mods SigmaVerif.SStr
+open SigmaVerif.Mods SigmaVerif.SStr SigmaVerif.SStrSpec SigmaVerif.Lemmas.Mods
+
+/-! ## 1. wildcard padding -/
+
+/-- `contains`: the padded pattern matches `x` iff the original pattern matches some infix of `x` -/
+theorem contains_glob (s : SStr) (x : Str) :
+    glob (addStarBack (addStarFront s)) x = true ↔ ∃ u v w, x = u ++ v ++ w ∧ glob s v = true := by
+  rw [glob_addStarBack, glob_append_star]
+  constructor
+  · rintro ⟨v', w, rfl, h⟩
+    rw [glob_addStarFront, glob_star_cons] at h
+    obtain ⟨u, v, rfl, hv⟩ := h
+    exact ⟨u, v, w, rfl, hv⟩
+  · rintro ⟨u, v, w, rfl, hv⟩
+    refine ⟨u ++ v, w, rfl, ?_⟩
+    rw [glob_addStarFront, glob_star_cons]
+    exact ⟨u, v, rfl, hv⟩
+
+example : glob (addStarBack (addStarFront [.lit 'a', .qm])) "xaby".toList = true :=
+  (contains_glob _ _).2 ⟨['x'], ['a', 'b'], ['y'], rfl, by simp [glob]⟩
+
+/-- `startswith`: the padded pattern matches `x` iff the original pattern matches a prefix of `x` -/
+theorem startswith_glob (s : SStr) (x : Str) :
+    glob (addStarBack s) x = true ↔ ∃ v w, x = v ++ w ∧ glob s v = true := by
+  rw [glob_addStarBack, glob_append_star]
+
+example : glob (addStarBack [.lit 'a']) "ab".toList = true :=
+  (startswith_glob _ _).2 ⟨['a'], ['b'], rfl, by simp [glob]⟩
+
+/-- `endswith`: the padded pattern matches `x` iff the original pattern matches a suffix of `x` -/
+theorem endswith_glob (s : SStr) (x : Str) :
+    glob (addStarFront s) x = true ↔ ∃ u v, x = u ++ v ∧ glob s v = true := by
+  rw [glob_addStarFront, glob_star_cons]
+
+example : glob (addStarFront [.lit 'b']) "ab".toList = true :=
+  (endswith_glob _ _).2 ⟨['a'], ['b'], rfl, by simp [glob]⟩
+
+/-- `contains` adds a wildcard at either end exactly when there is none yet, and changes nothing else -/
+theorem contains_adds_only_missing (s : SStr) :
+    addStarBack (addStarFront s) =
+      (if s.head? = some .star then [] else [.star]) ++ s ++
+      (if (addStarFront s).getLast? = some .star then [] else [.star]) := by
+  unfold addStarBack addStarFront
+  by_cases h1 : s.head? = some Part.star <;>
+    by_cases h2 : (if (s.head? == some Part.star) = true then s else Part.star :: s).getLast? = some Part.star <;>
+    simp_all
+
+example : addStarBack (addStarFront [.star, .lit 'a']) = [.star, .lit 'a', .star] := by decide
+example : addStarBack (addStarFront [.lit 'a']) = [.star, .lit 'a', .star] := by decide
+example : addStarBack (addStarFront []) = [.star] := by decide
 
 /-- contains adds only the missing wildcards -/
-theorem contains_idem (c : Bool) (s : SStr) :
+theorem contains_idem (s : SStr) :
     addStarBack (addStarFront (addStarBack (addStarFront s))) = addStarBack (addStarFront s) := by
   unfold addStarBack addStarFront
   by_cases h1 : s.head? = some Part.star <;> by_cases h2 : s.getLast? = some Part.star <;>
     simp [h1, h2, List.getLast?_cons, List.getLast?_append]
   all_goals (cases s <;> simp_all [List.getLast?_cons])
+
+theorem startswith_idem (s : SStr) : addStarBack (addStarBack s) = addStarBack s := by
+  unfold addStarBack
+  by_cases h2 : s.getLast? = some Part.star <;> simp [h2, List.getLast?_append]
+
+theorem endswith_idem (s : SStr) : addStarFront (addStarFront s) = addStarFront s := by
+  unfold addStarFront
+  by_cases h1 : s.head? = some Part.star <;> simp [h1]
+
+example : addStarBack (addStarBack [.lit 'a']) = [.lit 'a', .star] := by decide
+example : addStarFront (addStarFront [.lit 'a']) = [.star, .lit 'a'] := by decide
+
+/-! ## 2. windash -/
+
+/-- marking does not change the value -/
+theorem markValue_fst (w : Char → Bool) (s : SStr) : (markValue w s []).map (·.1) = s := by
+  simpa using markValue_fst_acc w s []
+
+/-- one variant per choice of a dash for every parameter-position dash -/
+theorem windash_count (w : Char → Bool) (s : SStr) :
+    (windash w s).length = 5 ^ ((markValue w s []).filter (·.2)).length :=
+  windashExpand_length _
+
+/-- no variant is produced twice -/
+theorem windash_nodup (w : Char → Bool) (s : SStr) : (windash w s).Nodup :=
+  windashExpand_nodup _
+
+/-- the variants are exactly the values that agree with the original at every unmarked position
+and carry one of the five dashes at every marked one -/
+theorem windash_exact (w : Char → Bool) (s : SStr) (t : SStr) :
+    t ∈ windash w s ↔
+      t.length = (markValue w s []).length ∧
+      ∀ i (h : i < (markValue w s []).length),
+        ((markValue w s [])[i].2 = false → t[i]? = some (markValue w s [])[i].1) ∧
+        ((markValue w s [])[i].2 = true → ∃ d ∈ dashes, t[i]? = some (.lit d)) := by
+  unfold windash
+  rw [mem_windashExpand, isVariant_iff_index]
+
+/-- the original value is among the variants (read with `markValue_fst`) -/
+theorem windash_contains_original (w : Char → Bool) (s : SStr) :
+    (markValue w s []).map (·.1) ∈ windash w s := by
+  unfold windash
+  rw [mem_windashExpand]
+  exact isVariant_self _ (markValue_wellMarked w s [])
+
+theorem windash_contains_self (w : Char → Bool) (s : SStr) : s ∈ windash w s := by
+  have := windash_contains_original w s
+  rwa [markValue_fst] at this
+
+/-- position `i` of a run of literal characters is marked iff the character is `-` or `/`, the
+previous character of the run is absent or not a word character, and the next character of the
+run exists and is a word character -/
+theorem windash_marks_spec (w : Char → Bool) (r : List Char) (i : Nat) :
+    (windashMarks w none r).length = r.length ∧
+    ((windashMarks w none r)[i]? = some true ↔
+      (r[i]? = some '-' ∨ r[i]? = some '/') ∧
+      (i = 0 ∨ ∃ p, r[i - 1]? = some p ∧ w p = false) ∧
+      (∃ d, r[i + 1]? = some d ∧ w d = true)) := by
+  refine ⟨windashMarks_length _ _ _, ?_⟩
+  rw [windashMarks_getElem?, markAt]
+  cases hc : r[i]? with
+  | none => simp
+  | some c =>
+    by_cases hi : i = 0
+    · subst hi
+      cases hd : r[0 + 1]? with
+      | none => simp
+      | some d => simp
+    · cases hp : r[i - 1]? with
+      | none =>
+        exfalso
+        have h1 := List.getElem?_eq_none_iff.1 hp
+        have h2 : i < r.length := by
+          cases hlt : decide (i < r.length) with
+          | true => exact of_decide_eq_true hlt
+          | false =>
+            have := List.getElem?_eq_none_iff.2 (Nat.le_of_not_lt (of_decide_eq_false hlt))
+            rw [this] at hc; cases hc
+        omega
+      | some p =>
+        cases hd : r[i + 1]? with
+        | none => simp [hi]
+        | some d => simp [hi, and_assoc]
+
+example : windashMarks (fun c => c.isAlphanum) none " -a /b x-y".toList =
+    [false, true, false, false, true, false, false, false, false, false] := by decide
+example : (windash (fun c => c.isAlphanum) [.lit ' ', .lit '-', .lit 'a']).length = 5 := by decide
+example : [Part.lit ' ', .lit (Char.ofNat 0x2013), .lit 'a'] ∈
+    windash (fun c => c.isAlphanum) [.lit ' ', .lit '-', .lit 'a'] := by decide
+
+/-- the same over the whole value (runs are delimited by wildcards and placeholders): position `i`
+is marked iff it holds a literal `-` or `/`, the part in front of it is absent, not a literal
+character, or a literal non-word character, and the part behind it is a literal word character -/
+theorem windash_mark_positions (w : Char → Bool) (s : SStr) (i : Nat) :
+    ((markValue w s [])[i]?).map (·.2) = some true ↔
+      (s[i]? = some (.lit '-') ∨ s[i]? = some (.lit '/')) ∧
+      (i = 0 ∨ ∀ q, s[i - 1]? = some (.lit q) → w q = false) ∧
+      (∃ d, s[i + 1]? = some (.lit d) ∧ w d = true) := by
+  rw [markValue_snd_getElem?]
+  cases hc : s[i]? with
+  | none => simp
+  | some p =>
+    have hnext : nextOkP w s[i + 1]? = true ↔ ∃ d, s[i + 1]? = some (.lit d) ∧ w d = true := by
+      cases s[i + 1]? with
+      | none => simp [nextOkP]
+      | some q => cases q <;> simp [nextOkP]
+    have hprev : prevOkP w (if i = 0 then none else s[i - 1]?) = true ↔
+        (i = 0 ∨ ∀ q, s[i - 1]? = some (.lit q) → w q = false) := by
+      by_cases hi : i = 0
+      · simp [hi, prevOkP]
+      · simp only [hi, if_false, false_or]
+        cases s[i - 1]? with
+        | none => simp [prevOkP]
+        | some q => cases q <;> simp [prevOkP]
+    have hdash : isDashP p = true ↔ (p = .lit '-' ∨ p = .lit '/') := by
+      cases p <;> simp [isDashP]
+    simp only [Option.map_some, Option.some.injEq, Bool.and_eq_true, hnext, hprev, hdash, and_assoc]
+
+example : ((markValue (fun c => c.isAlphanum) [.star, .lit '-', .lit 'a'] [])[1]?).map (·.2) = some true := by
+  decide
+example : ((markValue (fun c => c.isAlphanum) [.lit 'x', .lit '-', .lit 'a'] [])[1]?).map (·.2) = some false := by
+  decide
+
+/-! ## 3. expand -/
+
+/-- without `%` nothing changes -/
+theorem expand_no_percent (r : List Char) (h : '%' ∉ r) : expandRun r = r.map .lit :=
+  expandRunF_no_percent _ _ _ (Nat.le_succ _) h
+
+example : expandRun "ab\\c".toList = [.lit 'a', .lit 'b', .lit '\\', .lit 'c'] := by decide
+
+/-- an unescaped `%name%` (non-empty name without `%`) becomes a placeholder; scanning goes on
+behind the closing `%` (with `%` as the look-behind character) -/
+theorem expand_placeholder (name : List Char) (hn : name ≠ []) (h : '%' ∉ name) (rest : List Char) :
+    expandRun ('%' :: name ++ '%' :: rest) = .ph name :: expandRunF rest.length (some '%') rest := by
+  unfold expandRun
+  rw [List.cons_append, expandRunF_cons, splitName_append name rest hn h]
+  simp only [beq_self_eq_true, Bool.true_and, bne_iff_ne, ne_eq, reduceCtorEq, not_false_eq_true,
+    if_true]
+  rw [expandRunF_eq]
+  simp; omega
+
+example : expandRun "%ab%c".toList = [.ph ['a', 'b'], .lit 'c'] := by decide
+
+/-- `\%` is a literal percent sign anywhere in a run, whatever precedes it: it never opens a
+placeholder … -/
+theorem expand_escaped_anywhere (f : Nat) (prev : Option Char) (rest : List Char) :
+    expandRunF (f + 1) prev ('\\' :: '%' :: rest) = .lit '%' :: expandRunF f (some '%') rest := by
+  rw [expandRunF_cons]
+  have h1 : ('\\' == '%' && prev != some '\\') = false := by
+    have : ('\\' == '%') = false := by decide
+    rw [this]; rfl
+  rw [if_neg (by rw [h1]; exact Bool.false_ne_true)]
+  rfl
+
+/-- … in particular at the start of a run -/
+theorem expand_escaped (rest : List Char) :
+    expandRun ('\\' :: '%' :: rest) = .lit '%' :: expandRunF rest.length (some '%') rest := by
+  unfold expandRun
+  rw [expand_escaped_anywhere, expandRunF_eq _ _ _ (by simp only [List.length_cons]; omega)]
+
+/-- a percent sign whose look-behind character is a backslash is literal -/
+theorem expand_percent_after_backslash (f : Nat) (r : List Char) :
+    expandRunF (f + 1) (some '\\') ('%' :: r) = .lit '%' :: expandRunF f (some '%') r := by
+  rw [expandRunF_cons]; rfl
+
+example : expandRun "\\%a%".toList = [.lit '%', .lit 'a', .lit '%'] := by decide
+example : expandRun "x\\%a%".toList = [.lit 'x', .lit '%', .lit 'a', .lit '%'] := by decide
+
+/-- placeholder names produced by `expand` are non-empty and contain no `%` -/
+theorem expand_names_nonempty_nopercent (r : List Char) :
+    ∀ n, Part.ph n ∈ expandRun r → n ≠ [] ∧ '%' ∉ n :=
+  fun n h => expandRunF_names _ _ _ n h
+
+example : Part.ph ['a'] ∈ expandRun "%a%".toList := by decide
+
+/-- whole values (`expand` works run by run): without a literal `%` nothing changes … -/
+theorem expand_value_no_percent (s : SStr) (h : Part.lit '%' ∉ s) : expandValue s [] = s := by
+  simpa using expandValue_no_percent s [] h (by simp)
+
+/-- … and every placeholder of the result was there before or has a non-empty name without `%` -/
+theorem expand_value_names (s : SStr) (n : Str) (h : Part.ph n ∈ expandValue s []) :
+    Part.ph n ∈ s ∨ (n ≠ [] ∧ '%' ∉ n) :=
+  expandValue_names s [] n h
+
+example : expandValue [.lit '%', .lit 'a', .lit '%', .star, .lit '%', .lit 'b'] [] =
+    [.ph ['a'], .star, .lit '%', .lit 'b'] := by decide
+
+/-! ## 4. structural laws -/
+
+theorem all_spec (env : Env) (first : Bool) (it : Item) :
+    applyModifier env first "all" it = .ok { it with linkAnd := true } := rfl
+
+theorem neq_spec (env : Env) (first : Bool) (it : Item) :
+    applyModifier env first "neq" it = .ok { it with negated := true } := rfl
+
+
+example : (applyModifier { w := fun _ => false } true "all" { hasField := true, vals := [.null] }).toOption.map (·.linkAnd)
+    = some true := by decide
+
+/-- an unknown modifier anywhere in the chain makes the whole chain a modifier error -/
+theorem unknown_rejected (env : Env) (mods : List String) (it : Item) (m : String) (hm : m ∈ mods)
+    (hu : m ∉ valueModifiers ∧ m ∉ listModifiers) :
+    ∃ m', applyChain env mods it = .error (.unknown m') := by
+  unfold applyChain
+  cases hf : mods.find? (fun m => !(valueModifiers.contains m || listModifiers.contains m)) with
+  | some m' => exact ⟨_, rfl⟩
+  | none =>
+    exfalso
+    apply List.find?_eq_none.1 hf m hm
+    simp [hu.1, hu.2]
+
+example : "foo" ∉ valueModifiers ∧ "foo" ∉ listModifiers := by decide
+example (env : Env) (it : Item) :
+    applyChain env ["contains", "foo"] it = .error (.unknown "foo".toList) := rfl
+
+/-- `cased` keeps the content -/
+theorem retype_cased (env : Env) (hf first c : Bool) (s : SStr) :
+    modifyValue env hf first "cased" (.str c s) = .ok [.str true s] := rfl
+
+/-- the comparison modifiers keep the number -/
+theorem retype_cmp (env : Env) (hf first : Bool) (m : String) (hm : m ∈ ["lt", "lte", "gt", "gte"]) (n : Str) :
+    modifyValue env hf first m (.num n) = .ok [.cmp m.toList n] := by
+  simp only [List.mem_cons, List.not_mem_nil, or_false] at hm
+  rcases hm with rfl | rfl | rfl | rfl <;> rfl
+
+/-- `exists` on a field-bound boolean as first modifier keeps the boolean -/
+theorem retype_exists (env : Env) (b : Bool) :
+    modifyValue env true true "exists" (.bool b) = .ok [.exists_ b] := rfl
+
+/-- … and is a value error otherwise -/
+theorem exists_misplaced (env : Env) (hf first b : Bool) (h : (hf && first) = false) :
+    modifyValue env hf first "exists" (.bool b) = .error (.value "exists".toList) := by
+  cases hf <;> cases first <;> first | rfl | cases h
+
+/-- the regular-expression flag modifiers set their flag and keep the source and the other flags -/
+theorem retype_flags (env : Env) (hf first : Bool) (src : Str) (a b d : Bool) :
+    modifyValue env hf first "i" (.re src a b d) = .ok [.re src true b d] ∧
+    modifyValue env hf first "ignorecase" (.re src a b d) = .ok [.re src true b d] ∧
+    modifyValue env hf first "m" (.re src a b d) = .ok [.re src a true d] ∧
+    modifyValue env hf first "multiline" (.re src a b d) = .ok [.re src a true d] ∧
+    modifyValue env hf first "s" (.re src a b d) = .ok [.re src a b true] ∧
+    modifyValue env hf first "dotall" (.re src a b d) = .ok [.re src a b true] :=
+  ⟨rfl, rfl, rfl, rfl, rfl, rfl⟩
+
+/-- a value modifier answers a (non-expansion) value with a type error exactly when the table
+`acceptsBySpec` (which is compared with the live modifier classes) does not list the value type -/
+theorem type_error_iff (env : Env) (hf first : Bool) (m : String) (hm : m ∈ valueModifiers)
+    (v : Val) (hv : ∀ vs, v ≠ .expansion vs) :
+    (∃ e, modifyValue env hf first m v = .error (.type e)) ↔ acceptsBySpec m (typeName v) = false := by
+  have hv' : isExpansion v = false := by
+    cases v <;> first | rfl | exact absurd rfl (hv _)
+  rw [← isTypeErr_iff, isTypeErr_modifyValue env hf first m hm v hv']
+  simp
+
+example : acceptsBySpec "contains" "num" = false ∧ acceptsBySpec "contains" "str" = true := by decide
 
 end SigmaVerif.Props.C03
